@@ -342,6 +342,7 @@ func RunC11(c *Ctx) error {
 	evals := 0
 	distinct := map[string]bool{}
 	siteReach := map[string]int{}
+	siteVisits := map[string]int{}
 	var samples []interface{}
 	var ticks int64
 	fidelityBad := 0
@@ -356,6 +357,7 @@ func RunC11(c *Ctx) error {
 		ticks += j.res.Ticks
 		nontrivial := false
 		for s, st := range j.res.Sites {
+			siteVisits[s] += st.Visits
 			if st.Permuted > 0 {
 				siteReach[s] += st.Permuted
 				nontrivial = true
@@ -392,10 +394,13 @@ func RunC11(c *Ctx) error {
 	if fidelityBad > 0 && c.NumViolations() == 0 {
 		return Harnessf("instrumented gocc under the identity plan differs from the real binary on %d configurations and no nondeterminism of the real binary explains it", fidelityBad)
 	}
-	var unreached []string
+	var unreached, neverVisited []string
 	for _, s := range sites {
 		if siteReach[s] == 0 {
 			unreached = append(unreached, s)
+		}
+		if siteVisits[s] == 0 {
+			neverVisited = append(neverVisited, s)
 		}
 	}
 	c.Logf("%d runs judged (%d distinct non-trivial), %d real-binary observation runs, %d violations; sites never permuted with >=2 entries: %v", evals, len(distinct), obsRuns, c.NumViolations(), unreached)
